@@ -3,9 +3,7 @@ Tie A (C14): the endless `for` of `varint_encode` as clang reads it writes the o
 read mark, one per round, sets the fill mark just behind them and returns their number - provided they fit the memory.
 -/
 import Ufw.Gen.VarintLoops
-import Ufw.Model.Varint
-import Ufw.Lemmas.Varint
-import Ufw.Tie.VarintLoops.Length
+import Ufw.Tie.VarintLoops.Common
 namespace Ufw.Tie.VarintLoops
 open Ufw.Tie.CPre Ufw.Model.Varint
 
